@@ -1128,7 +1128,7 @@ class Verifier(Interp):
             # loop target keeps last value (if n > 0); leave it havoc'd/undefined
             return
 
-    def resub_callable(self, pat, repl, text, node):
+    def resub_callable(self, pat, repl, text, node, pattern_val=None):
         """`pattern.sub(f, text)`: loop over an arbitrary number of matches, cut by an invariant."""
         con = self.cur_con_for_loops()
         subs = [n for n in ast.walk(self.cur_fi.node) if isinstance(n, ast.Call) and isinstance(n.func, ast.Attribute)
@@ -1151,9 +1151,12 @@ class Verifier(Interp):
             self.assume(inv_formula(), "inv")
             mt = z3.Const(self.fresh_name("match.text"), z3.StringSort())
             from contracts.externals import _pattern_lang
-            lang = _pattern_lang(self, pat)
+            lang = _pattern_lang(self, pat) if pat is not None else None
             if lang is not None:
                 self.st.pc.append(z3.InRe(mt, lang))
+            for e in getattr(inv, "match_assume", ()):
+                self.used_assumptions.add("assumed about every match of the run-time pattern in %s: %s" % (self.cur_func, e))
+                self.assume(self.spec_eval(lambda: self.formula(e), {"MATCH": P(STR, mt)}), "match")
             m = Special("match", text=mt, groups={})
             lib.apply(self, repl, [m], {}, node)
             self.prove(name + ".step", inv_formula(), meta={"kind": "loop-step"})
